@@ -103,8 +103,12 @@ def run_c11(run, tier, wd, binary, replay):
     rng = random.Random(run.seed * 17 + 11)
     for _ in range(300 if tier == "quick" else 6000):          # deeper / wider random shapes
         shapes.append(dict(shape=rand_shape(rng)))
+    # every shape with a struct field a second time with leaves named by POSITION: fields of different embedded structs then share
+    # names and outer fields shadow promoted ones (the specification is name-agnostic: nothing may change)
+    shapes += [dict(shape=s["shape"], pos=True) for s in list(shapes) if any(n["k"] == "struct" for n in s["shape"])]
     if replay:
-        shapes = [dict(shape=json.load(open(replay))["replay"]["record"]["shape"])]
+        rr = json.load(open(replay))["replay"]["record"]
+        shapes = [dict(shape=rr["shape"], pos=bool(rr.get("pos")))]
     vlib.write_ndjson(os.path.join(bd, "in.ndjson"), shapes)
     p = vlib.run_harness(binary, ["scan", "-in", "in.ndjson", "-out", "st.ndjson"], cwd=bd)
     if p.returncode != 0:
@@ -112,9 +116,9 @@ def run_c11(run, tier, wd, binary, replay):
     lines = open(os.path.join(bd, "st.ndjson")).readlines()
     monitor_lines(run, bd, "TraceTagScan", lines, dict(Shapes="{}"),
                   ["C11_Exactly_Bound", "C11_Frame_Untouched", "C11_Exactly_Custom", "C11_Flatten_Same", "C11_RunOk"],
-                  "real tag scan", lambda rec: "shape with %d root field(s)" % len(rec["shape"]), chunk=4000)
+                  "real tag scan", lambda rec: "shape with %d root field(s)%s" % (len(rec["shape"]), ", leaves named by position" if rec.get("pos") else ""), chunk=4000)
     for sh in shapes:
-        run.count_case(sh["shape"], any(n["k"] == "struct" for n in sh["shape"]))
+        run.count_case([sh["shape"], sh.get("pos", False)], any(n["k"] == "struct" for n in sh["shape"]))
     run.sample(json.loads(lines[len(lines) // 3]))
     run.cov["rule"] = ("shapes = every field tree of the bounded family (depth <= 3; anonymous / named, tagged / untagged, by-value / pointer "
                        "struct fields; value, prop, custom, foreign, untagged leaves; a compile-time block with an unexported tagged field; an "
